@@ -242,7 +242,11 @@ def populateGtf (cfg : Cfg) (db : Db) (auto : Dict Nat) (fs : List Feature) : Py
   if fs.isEmpty then .error .value else fs.foldlM (gtfStep cfg) (db, auto)
 
 /-- `SELECT MIN(start), MAX(end), strand, seqid FROM features JOIN relations ON features.id =
-relations.child WHERE parent = ? AND featuretype == ?` (bare columns: any joined row — the first) -/
+relations.child WHERE parent = ? AND featuretype == ?`.  The bare columns `strand, seqid` come from ONE of
+the joined rows; which one only matters when the subfeatures of a transcript or gene disagree on strand or
+seqid (outside C03's domain).  What sqlite 3.40 does, established by experiment and validated by the
+correspondence: it scans the relations PRIMARY KEY index, i.e. the rows in order of child id, and keeps the
+first row that attains `MAX(end)`; when every `end` is NULL, the last row scanned. -/
 def extent (db : Db) (sub : Str) (parent : Str) : Option (Option Int × Option Int × Str × Str) :=
   let rows := (db.relations.filter (·.parent = parent)).filterMap (fun r =>
     match db.getRow? r.child with
@@ -253,9 +257,13 @@ def extent (db : Db) (sub : Str) (parent : Str) : Option (Option Int × Option I
   | r0 :: _ =>
     let starts := rows.filterMap (·.start)
     let stops := rows.filterMap (·.stop)
+    let mx := stops.foldl (fun m x => match m with | none => some x | some y => some (max x y)) none
+    let scanned := rows.mergeSort (fun (a b : Row) => strLe a.id b.id)
+    let pick := match mx with
+      | some m => (scanned.find? (fun (r : Row) => r.stop == some m)).getD r0
+      | none => scanned.getLast?.getD r0
     some (starts.foldl (fun m x => match m with | none => some x | some y => some (min x y)) none,
-          stops.foldl (fun m x => match m with | none => some x | some y => some (max x y)) none,
-          r0.strand, r0.seqid)
+          mx, pick.strand, pick.seqid)
 
 /-- one derived feature as `derived_feature_generator` rebuilds it -/
 def derivedFeature (ftype : Str) (ext : Option Int × Option Int × Str × Str) (attrs : Attrs) : Py Feature :=
